@@ -38,6 +38,8 @@ def snap(obj, order=False):
             return obj.item()
     except Exception:  # noqa
         pass
+    if type(obj).__module__.startswith("sympy"):
+        return ("sympy", str(obj))
     d = getattr(obj, "__dict__", None)
     if d is not None:
         return (type(obj).__name__, tuple(sorted(((k, snap(v)) for k, v in d.items()), key=repr)))
